@@ -14,4 +14,6 @@ INVARIANT InvIdempotent
 INVARIANT InvCommute
 INVARIANT InvRootReaches
 INVARIANT InvLastWins
+INVARIANT InvRoundtripBand
+INVARIANT InvRoundtripUniform
 INVARIANT InvTable
